@@ -206,3 +206,17 @@ func Solve(m, n M) M {
 	}
 	return b
 }
+
+// Transpose returns the transpose of m.
+func Transpose(m M) M {
+	if len(m) == 0 {
+		return m
+	}
+	t := New(len(m[0]), len(m))
+	for i := range m {
+		for j := range m[i] {
+			t[j][i] = m[i][j]
+		}
+	}
+	return t
+}
